@@ -55,6 +55,17 @@ def gen_graph(rng, pure):
             muts += [p for p in ins if p not in dfl and p not in outs and rng.random() < 0.4]
         nodes.append({"name": f"n{i}", "inputs": ins, "defaults": dfl, "mutates": muts, "tag": rng.randint(1, 9), "output": f"o{i}"})
         outs.append(f"o{i}")
+    # a binding may also sit on a parameter that HAS a signature default: the bound object wins and arrives as itself
+    if rng.random() < 0.3:
+        cands = [(n, p) for n in nodes for p, v in n["defaults"].items() if isinstance(v, list) and p != "shared_acc"]
+        if cands:
+            n_, p_ = rng.choice(cands)
+            bound[p_] = [rng.randint(0, 5)]
+            if pure:
+                # (a bound object is shared between runs on purpose: in a 'pure' history nobody mutates it)
+                for m_ in nodes:
+                    if p_ in m_["mutates"]:
+                        m_["mutates"].remove(p_)
     # one default value per shared parameter name (the constructor insists on consistent defaults)
     shared = None
     for n in nodes:
@@ -143,7 +154,8 @@ class World:
         names = [n["name"] for n in self.g["nodes"]] if subset is None else subset
         G = Graph([self.nodes[x] for x in names], name="inner" if nested else None)
         b = {p: self.bound_objs[p] for p in self.g["bound"] if p in G.inputs.all}
-        if b:
+        bind_outer = nested and self.rng.random() < 0.5      # the binding sits on the ENCLOSING graph instead of the nested one
+        if b and not bind_outer:
             G = G.bind(**b)
         if nested:
             from hypergraph import Graph as Gr
@@ -151,6 +163,8 @@ class World:
             env = {}
             exec("def sib(*, x):\n    return 0\n", env)
             G = Gr([G.as_node(name="wrapped"), FunctionNode(env["sib"], name="sib", output_name="sib_out")])
+            if b and bind_outer:
+                G = G.bind(**{k_: v_ for k_, v_ in b.items() if k_ in G.inputs.all})
             self.full_spec = G.inputs
             r = self.rng.random()
             if r < 0.35:
@@ -278,6 +292,10 @@ def one_history(ctx, rng, N, batch, ci, dist):
                 xcode = 2 + next(k for k, o in enumerate(w.known) if o is extra_obj)
                 if code != xcode:
                     ctx.violation("oracle", f"run {rid}: {nm}.{p} did not receive the list its caller supplied (code {code}, expected {xcode})", case=case)
+            elif p in g["bound"] and p not in base_inputs and isinstance(w.bound_objs[p], list):
+                bcode = 2 + next(k for k, o in enumerate(w.known) if o is w.bound_objs[p])
+                if code != bcode:
+                    ctx.violation("oracle", f"run {rid}: {nm}.{p} did not receive the bound object itself (code {code}, expected {bcode})", case=case)
             elif p in n["defaults"] and isinstance(n["defaults"][p], list):
                 dcode = 2 + next(k for k, o in enumerate(w.known) if o is w.defaults[(nm, p)])
                 if code == dcode:
